@@ -64,10 +64,10 @@ fn thresholds() -> Vec<f32> {
     vec![0.04045, 0.0031308, 0.018, 0.081, 0.5, 1.0 / 12.0, 0.01, 0.003_162_277_6, 0.0, 1.0, 0.018_053_97, 0.003_041_282_5, 0.039_293_37]
 }
 
-/// Quick stratum: every f32 in [0,1] whose low 8 mantissa bits are zero (every binade incl.
+/// Quick stratum: every f32 in [0,1] whose low 6 mantissa bits are zero (every binade incl.
 /// subnormals) plus +-256-ulp neighbourhoods of 0, 1 and every branch threshold.
 pub fn quick_domain() -> Vec<u32> {
-    let sh = if light() { 12 } else { 8 };
+    let sh = if light() { 12 } else { 6 };
     let mut v: Vec<u32> = (0..=ONE_BITS >> sh).map(|i| i << sh).collect();
     for t in thresholds() {
         let b = t.to_bits() as i64;
@@ -108,7 +108,7 @@ impl Dom {
     }
     pub fn describe(&self) -> String {
         match self {
-            Dom::List(v) => format!("{} f32 values of [0,1]: all with low 8 mantissa bits zero (every binade, subnormals included) plus +-256-ulp neighbourhoods of 0, 1 and 11 branch thresholds", v.len()),
+            Dom::List(v) => format!("{} f32 values of [0,1]: all with low 6 mantissa bits zero (every binade, subnormals included) plus +-256-ulp neighbourhoods of 0, 1 and 11 branch thresholds", v.len()),
             Dom::AllF01 => "all 1,065,353,217 f32 values in [0,1]".into(),
         }
     }
